@@ -14,6 +14,9 @@ import (
 // contained tree to a target directory.
 func UnTar(ctx context.Context, r io.Reader, fs FilesystemWriter) error {
 	dec := NewArchiveDecoder(r)
+	// Creating the entries of a directory bumps its mtime, so the mtimes of
+	// all directories are set once more when everything is in place.
+	var dirs []NodeDirectory
 loop:
 	for {
 		// See if we're meant to stop
@@ -29,6 +32,7 @@ loop:
 		switch n := c.(type) {
 		case NodeDirectory:
 			err = fs.CreateDir(n)
+			dirs = append(dirs, n)
 		case NodeFile:
 			err = fs.CreateFile(n)
 		case NodeDevice:
@@ -42,6 +46,13 @@ loop:
 		}
 		if err != nil {
 			return err
+		}
+	}
+	if t, ok := fs.(dirTimeSetter); ok {
+		for i := len(dirs) - 1; i >= 0; i-- {
+			if err := t.SetDirTime(dirs[i]); err != nil {
+				return err
+			}
 		}
 	}
 	return nil
